@@ -20,7 +20,18 @@ Definition judge04g (c : scase) : bool * bool := (agree c, m04 c && m04dg c).
 Definition judge05sg (c : scase) : bool * bool :=
   (agree c, m04dg c && match target c with Some m => negb (is_goingb m) || negb (os_orphan m) || is_nil (members c) | None => true end).
 Definition judge06g (c : scase) : bool * bool := (agree c, m06g c && m06dg c).
-Definition judge09g (c : scase) : bool * bool * bool := (agree c, m09 c && m09dg c, m09d_all c).
+(** C09 "yet keeps probing them and reporting Available and Paused": a pass of a paused, active ObjectSet that carries
+    its finalizer and a revision and has only in-process phases does not fail - whatever is missing or unready is
+    reported through the status, not through an error that leaves the status unwritten. *)
+Definition m09s (c : scase) : bool :=
+  match target c with
+  | None => true
+  | Some m =>
+      negb (is_activeb m) || negb (lifecycle_eqb (os_life m) LPaused) || negb (os_fin m) || Z.eqb (os_revision m) 0 ||
+      existsb ph_class (os_phases m) ||
+      match sc_res c with SError => false | _ => true end
+  end.
+Definition judge09g (c : scase) : bool * bool * bool * bool := (agree c, m09 c && m09dg c, m09d_all c, m09s c).
 
 (** the guards read the scenario only *)
 Lemma guards_obs c res :
@@ -64,7 +75,7 @@ Theorem judge04g_sound c : snd (judge04g (set_obs_s c (SetCorr.model_run c))) = 
 Proof. cbn [judge04g snd]. now rewrite m04_sound, m04dg_sound. Qed.
 Theorem judge06g_sound c : snd (judge06g (set_obs_s c (SetCorr.model_run c))) = true.
 Proof. cbn [judge06g snd]. now rewrite m06g_sound, m06dg_sound. Qed.
-Theorem judge09g_sound c : snd (fst (judge09g (set_obs_s c (SetCorr.model_run c)))) = true.
+Theorem judge09g_sound c : snd (fst (fst (judge09g (set_obs_s c (SetCorr.model_run c))))) = true.
 Proof. cbn [judge09g fst snd]. now rewrite m09_sound, m09dg_sound. Qed.
 Theorem judge11_sound c : snd (judge11 (set_obs_s c (SetCorr.model_run c))) = true.
 Proof. cbn [judge11 snd]. now rewrite m11_sound, m11r_sound. Qed.
